@@ -64,7 +64,7 @@ func (b *Bundle) NameFeature(class, role string) {
 	}
 }
 
-var CollisionKinds = []string{"exact", "case", "several", "generatedName", "oaigenTaken", "oaigen1Taken", "paramsBodyTaken", "twoImportsSameName", "caseTwinsInline", "prefixNames", "anonPointerNameTaken", "anonPointerSymbolsKey", "opKeyTwins", "opKeyTwinsWithID", "dupOperationIds", "prefixNamesRemoteRecursive", "mangleTwinsInline", "manyMembers", "generatedNamesPresent"}
+var CollisionKinds = []string{"exact", "case", "several", "generatedName", "oaigenTaken", "oaigen1Taken", "paramsBodyTaken", "twoImportsSameName", "caseTwinsInline", "prefixNames", "anonPointerNameTaken", "anonPointerSymbolsKey", "opKeyTwins", "opKeyTwinsWithID", "dupOperationIds", "prefixNamesRemoteRecursive", "mangleTwinsInline", "manyMembers", "generatedNamesPresent", "pathWithoutOperations", "anonPointerPrefixSibling", "deepOnlyReferrer", "twoSpellingsTwoFiles", "mergedBackNameTaken", "oaigenNamesTaken"}
 
 // KeywordNames: definition and property names that are also keywords of the schema model or words the namer treats specially.
 var KeywordNames = []string{"schema", "not", "anyOf", "oneOf", "allOf", "properties", "items", "additionalProperties", "definitions", "parameters", "responses", "paths", "body", "default", "0"}
@@ -158,6 +158,66 @@ func (b *Bundle) Collision(kind string) {
 			op["parameters"] = jx.Arr{jx.Obj{"name": "body", "in": "body", "schema": body}}
 			jx.AsObj(op["responses"])["200"] = jx.Obj{"description": b.lbl("dup"), "schema": jx.Obj{"type": "array", "items": b.Obj()}}
 		}
+	case "anonPointerPrefixSibling":
+		// an anonymous pointer whose own key extends its target's key as a string (sibling 'name' -> 'n', 'x2' -> 'x')
+		tgt := b.Obj()
+		if Chance(b.rng, 50) {
+			tgt = b.Prim()
+		}
+		use(b.Def("pfx"+k, jx.Obj{"type": "object", "description": b.lbl("pf"), "properties": jx.Obj{
+			"n": tgt, "name": jx.Obj{"$ref": "#/definitions/pfx" + k + "/properties/n"},
+			"x": b.Prim(), "x2": jx.Obj{"$ref": "#/definitions/pfx" + k + "/properties/x"}}}))
+		b.AnonPtr = true
+	case "deepOnlyReferrer":
+		// the only referrer of a definition sits very deep (about 70 pointer segments)
+		leafDef := b.Def("deepLeaf"+k, b.Obj())
+		use(b.Def("deepTree"+k, b.Hold("property", jx.Obj{"type": "object", "description": b.lbl("dl"), "properties": jx.Obj{
+			"leaf": jx.Obj{"$ref": leafDef}, "list": jx.Obj{"type": "array", "items": jx.Obj{"$ref": b.Def("deepLabel"+k, b.Prim())}}}}, 34, "lvl")))
+	case "twoSpellingsTwoFiles":
+		// one remote definition under two spellings of its file, a same-named definition of another file sorting between them
+		n := "Sp" + k
+		b.AuxDef("b.json", n, b.refFreeSchema("object"))
+		b.AuxDef("a.json", n, b.refFreeSchema("object"))
+		use(b.Def("spHolder"+k, jx.Obj{"type": "object", "description": b.lbl("sp"), "properties": jx.Obj{"p": jx.Obj{"$ref": "./b.json#/definitions/" + n}}}))
+		use("b.json#/definitions/" + n)
+		use("a.json#/definitions/" + n)
+		b.Tag("multi-doc")
+	case "mergedBackNameTaken":
+		// an import colliding with a root definition is merged back into a response whose generated name is taken too
+		id := "getMb" + k
+		b.Def("foo"+k, b.refFreeSchema("object"))
+		b.Def(id+"OKBody", b.refFreeSchema("object"))
+		b.AuxDef("sub/a.json", "foo"+k, b.refFreeSchema("object"))
+		for i, oid := range []string{id, "getMz" + k} {
+			op := b.Op("/mb"+k+"/"+strconv.Itoa(i), "get", false)
+			op["operationId"] = oid
+			jx.AsObj(op["responses"])["200"] = jx.Obj{"description": b.lbl("mb"), "schema": jx.Obj{"$ref": "sub/a.json#/definitions/foo" + k}}
+		}
+		use("#/definitions/foo" + k)
+		use("#/definitions/" + id + "OKBody")
+		b.Tag("multi-doc")
+	case "oaigenNamesTaken":
+		// x, xOAIGen and xOAIGen1 are all taken when another x arrives
+		n := "tk" + k
+		for _, d := range []string{n, n + "OAIGen", n + "OAIGen1"} {
+			use(b.Def(d, b.refFreeSchema("object")))
+		}
+		b.AuxDef("sub/a.json", n, b.refFreeSchema("object"))
+		use("sub/a.json#/definitions/" + n)
+		b.AuxDef("other/c.json", n, b.refFreeSchema("prim"))
+		use("other/c.json#/definitions/" + n)
+		b.Tag("multi-doc")
+	case "pathWithoutOperations":
+		// a path item that declares path-level parameters and no operation at all (legal, if useless)
+		p := "/noops" + k + "/{id}"
+		jx.AsObj(b.Root["paths"])[p] = jx.Obj{"parameters": jx.Arr{
+			jx.Obj{"name": "body", "in": "body", "schema": b.Hold(Pick(b.rng, BundleHolders), b.Obj(), 1, "")},
+			jx.Obj{"name": "id", "in": "path", "type": "string", "required": true}}}
+		p2 := "/noops" + k + "/refs"
+		jx.AsObj(b.Root["paths"])[p2] = jx.Obj{"parameters": jx.Arr{
+			jx.Obj{"name": "body", "in": "body", "schema": jx.Obj{"type": "object", "description": b.lbl("no"), "properties": jx.Obj{
+				"l": jx.Obj{"$ref": b.Target("localDef", "")}, "r": jx.Obj{"$ref": b.Target("remoteDef", "")}, "i": b.Obj()}}}}}
+		b.Plant("property", "codeResponse", "localDef", 1)
 	case "mangleTwinsInline":
 		// sibling property names that the name mangler turns into the same word, each holding a complex inline schema:
 		// two names generated in the same pass meet
@@ -582,6 +642,32 @@ func sysSpecs() []sysSpec {
 				b.UnusedLinks(ks, cyc)
 				b.Plant("property", "codeResponse", "localDef", 1)
 			})
+		}
+	}
+	// two different holder keywords nested in each other (a key such as .../items/not or .../additionalProperties/allOf/0)
+	mi := 0
+	for _, outer := range []string{"items", "additionalProperties", "additionalItems", "tuple", "property", "allOf", "patternProperties", "not"} {
+		for _, inner := range []string{"not", "anyOf", "oneOf", "allOf", "items", "property", "additionalProperties", "tuple", "additionalItems"} {
+			if outer == inner {
+				continue
+			}
+			for _, leaf := range []string{"inlineObject", "localDef", "remoteDef"} {
+				outer, inner, leaf := outer, inner, leaf
+				cont := []string{"definition", "codeResponse", "opParam"}[mi%3]
+				mi++
+				add(fmt.Sprintf("mixed/%s/%s/%s/%s", outer, inner, leaf, cont), func(b *Bundle) {
+					b.Tag("extended")
+					b.Tag("cell:mixed/" + outer + "/" + inner + "/" + leaf)
+					l := b.InlineLeaf(leaf)
+					if l == nil {
+						l = jx.Obj{"$ref": b.Target(leaf, "")}
+					}
+					b.Place(cont, b.Hold(outer, b.Hold(inner, l, 1, ""), 1, ""), "")
+					if len(b.Aux) > 0 {
+						b.Tag("multi-doc")
+					}
+				})
+			}
 		}
 	}
 	for _, n := range KeywordNames {
